@@ -99,6 +99,15 @@ def discharge(ob: Obligation, z3_ms=None):
     r = timed_check(s, z3_ms)
     dt = time.time() - t0
     if r == z3.unsat:
+        if os.environ.get("PYVC_CROSS") and ob.pc:
+            # thorough tier: an independent second opinion on every discharged obligation. cvc5 answering `sat` where z3
+            # answered `unsat` is a disagreement of the back ends (reported as a checker failure, never as held).
+            smt = s.to_smt2().replace("seq.nth_i", "seq.nth").replace("seq.nth_u", "seq.nth")
+            st, dt2, _ = run_cvc5(smt, (), tlimit_s=int(os.environ.get("PYVC_CROSS_S", "5")))
+            CROSS[st if st in ("sat", "unsat") else "no-answer"] = CROSS.get(st if st in ("sat", "unsat") else "no-answer", 0) + 1
+            if st == "sat":
+                return ("unknown", "z3-vs-cvc5", dt + dt2, None, "BACK-END DISAGREEMENT: z3 unsat, cvc5 sat")
+            return ("unsat", "z3+cvc5" if st == "unsat" else "z3", dt + dt2, None, "")
         return ("unsat", "z3", dt, None, "")
     if r == z3.sat:
         m = s.model()
@@ -191,7 +200,10 @@ def discharge(ob: Obligation, z3_ms=None):
     return ("unknown", "z3+cvc5", dt + dt2 + dt3, None, f"z3: {reason}; cvc5: {st}")
 
 
-def run_cvc5(smt2: str, names=()):
+CROSS = {}
+
+
+def run_cvc5(smt2: str, names=(), tlimit_s=None):
     """-> (status, seconds, model dict | None).  z3's (check-sat) is replaced so that a model can be asked for."""
     t0 = time.time()
     model = None
@@ -205,8 +217,8 @@ def run_cvc5(smt2: str, names=()):
             path = fd.name
         try:
             p = subprocess.run(
-                ["/usr/bin/cvc5", "--strings-exp", f"--tlimit={CVC5_TIMEOUT_S * 1000}", path],
-                capture_output=True, text=True, timeout=CVC5_TIMEOUT_S + 5,
+                ["/usr/bin/cvc5", "--strings-exp", f"--tlimit={(tlimit_s or CVC5_TIMEOUT_S) * 1000}", path],
+                capture_output=True, text=True, timeout=(tlimit_s or CVC5_TIMEOUT_S) + 5,
             )
             out = p.stdout.strip().splitlines()
             st = out[0] if out else "error"
